@@ -58,7 +58,7 @@ Definition spec_step (tbl : ctable) (objs : list sobj) (o : op) : list sobj * ob
   | ONew c args =>
       match lookup c tbl with
       | None => (objs, NewFailed)
-      | Some g => if (List.length args <? List.length (g_params g))%nat then (objs, NewFailed)
+      | Some g => if (List.length args <? List.length (g_params g))%nat then (objs, NewArity)
                   else ((objs ++ [{| s_cls := c; s_args := args; s_vals := [] |}])%list, Created)
       end
   | OWrite _ i p v =>
@@ -91,14 +91,14 @@ Definition spec_step (tbl : ctable) (objs : list sobj) (o : op) : list sobj * ob
       match lookup c tbl with
       | None => (objs, NewFailed)
       | Some g =>
-          match g_ctor g with
-          | None => (objs, NewFailed)
-          | Some (p, d) =>
-              if (List.length args <? List.length (g_params g))%nat then (objs, NewFailed)
-              else if (match member_type g args d with None => true | Some t => of_type v t end)
+          if (List.length args <? List.length (g_params g))%nat then (objs, NewArity)
+          else match g_ctor g with
+               | None => (objs, NewFailed)
+               | Some (p, d) =>
+                   if (match member_type g args d with None => true | Some t => of_type v t end)
                    then ((objs ++ [{| s_cls := c; s_args := args; s_vals := [(p, v)] |}])%list, Created)
                    else (objs, NewFailed)
-          end
+               end
       end
   | ONewRaw c =>
       (* no type arguments: the type parameters stand for nothing, members declared with them are unconstrained *)
